@@ -570,6 +570,7 @@ pub fn orchestrate<P: Property>(tier: Tier) -> i32 {
 
     // ---- violations: first instance per class (lowest run index)
     cands.sort_by_key(|c| c.i);
+    let died_in_a_run = cands.iter().any(|c| c.class.ends_with(".crash") || c.class.ends_with(".hang"));
     // every worker reports its first run of each class: keep them all, lowest run index first
     let mut by_class: BTreeMap<String, Vec<Cand>> = BTreeMap::new();
     for c in cands {
@@ -669,7 +670,13 @@ pub fn orchestrate<P: Property>(tier: Tier) -> i32 {
     let wall = start.elapsed().as_secs_f64();
     let total_expected = seeded + sweep;
     if runs != total_expected && harness_errors.is_empty() {
-        harness_errors.push(format!("executed {runs} runs, expected {total_expected}"));
+        if died_in_a_run && violations > 0 {
+            // a worker that the code under test killed (or hung) does not execute the rest of
+            // its share: reported as the violation it is, not as a harness error
+            println!("fusim: {} of {} runs executed (worker processes ended inside a run, see the violations above)", runs, total_expected);
+        } else {
+            harness_errors.push(format!("executed {runs} runs, expected {total_expected}"));
+        }
     }
     let zero_probes: Vec<&String> = probes.iter().filter(|(_, v)| **v == 0).map(|(k, _)| k).collect();
     let evidence = json!({
